@@ -148,9 +148,9 @@ pub fn run_case_with(gd: &GenDict, mk: &dyn Fn() -> Outcome<vibrato::Dictionary>
     let fin = |t: String, extra: &Vec<Vec<u64>>| t.replace("@@EXTRA@@", &clist(extra, |v| clist(v, |x| cn(x))));
     let mut extra: Vec<Vec<u64>> = vec![];
     let human = format!(
-        "char.def={} unk.def={} lex.csv={} user={:?} matrix.def={} ignore_space={} max_grouping_len={} sentences={:?}",
+        "char.def={} unk.def={} lex.csv={} user={:?} matrix.def={} bigram(right,left,cost,dual)={:?} ignore_space={} max_grouping_len={} sentences={:?}",
         json_str(&gd.char_def()), json_str(&GenDict::rows_csv(&gd.unk)), json_str(&GenDict::rows_csv(&gd.sys)),
-        gd.user.as_ref().map(|u| GenDict::rows_csv(u)), json_str(&gd.matrix_def()), ignore_space, mgl, sentences
+        gd.user.as_ref().map(|u| GenDict::rows_csv(u)), json_str(&gd.matrix_def()), gd.bigram, ignore_space, mgl, sentences
     );
     let dict = match built {
         Outcome::Ok(d) => d,
@@ -427,7 +427,14 @@ pub fn run(prop: &str, seed: u64, n: usize, outdir: &str, _corpus: Option<&str>)
             many_ids: prop == "C13",
             malformed: prop == "C10" && rng.chance(1, 2),
         };
-        let gd = gen_dict(&mut rng, &go);
+        let mut gd = gen_dict(&mut rng, &go);
+        // 1 dictionary in 4 (not for C10, whose text stream edits matrix.def) uses a raw or dual bigram
+        // connector instead of matrix.def; the model takes every connection cost through the hook anyway
+        if prop != "C10" && gd.nright >= 2 && gd.nleft >= 2 && gd.nright <= 6 && rng.chance(1, 4) {
+            let bg = crate::c07::gen_bigram_sized(&mut rng, false, false, gd.nright - 1, gd.nleft - 1);
+            gd.bigram = Some((bg.right_file(), bg.left_file(), bg.cost_file(), rng.chance(1, 2)));
+        }
+        let gd = gd;
         let ignore_space = if prop == "C12" { true } else { rng.chance(1, 3) };
         let mgl = *rng.pick(&[0usize, 0, 1, 2, 3, 24]);
         let counting = prop == "C13" || rng.chance(1, 5);
@@ -451,6 +458,7 @@ pub fn run(prop: &str, seed: u64, n: usize, outdir: &str, _corpus: Option<&str>)
         *dist.entry(format!("build_{}", ["ok", "err", "panic"][out.built as usize])).or_default() += 1;
         *dist.entry(format!("ignore_space_{}", ignore_space)).or_default() += 1;
         *dist.entry(format!("user_lexicon_{}", gd.user.is_some())).or_default() += 1;
+        *dist.entry(format!("connector_{}", match &gd.bigram { None => "matrix", Some((_, _, _, false)) => "raw", Some(_) => "dual" })).or_default() += 1;
         *dist.entry(format!("categories_{}", gd.cats.len())).or_default() += 1;
         if counting {
             *dist.entry("counting_cases".into()).or_default() += 1;
